@@ -130,10 +130,28 @@ def run(ctx):
     # through the parser, inside every statement form (a subset: parsing costs ~50 ms)
     sub = [b for b in vals if len(b) <= 2][:: max(1, len(vals) // (60 if q else 600))] + [b for b in vals if len(b) > 2][: 60 if q else 800]
     sub += [b'\\"', b'"', b"\\", b"\\\\", b'";', b"';#", b"\n", b"}{", b"\\x41", b'a" ; set jitter "9', b"\xff\x00"]
+    # values whose bytes look like the layout of a statement (blank before ';', braces with blanks around them ...)
+    sub += [b"a ;b", b" ;", b"; ", b" ; ", b"x { y", b"} ;", b"{ }", b"a  ;  b", b" ;;", b"set x \"y\" ;"]
     for b in sub:
         o = core.outcome(c2profile.value_to_string, b)
         if o[0] == "ok":
             check_in_statements(ctx, c2profile, o[1], b, viol)
+    # the other way a value reaches a profile text: the builder API and as_text() (what from_beacon_config does)
+    for b in sub:
+        def built():
+            p = c2profile.C2Profile()
+            p.set_option("useragent", b)
+            g_ = c2profile.HttpGetBlock(uri=b)
+            p.set_config_block("http_get", g_)
+            text = p.as_text()
+            d = c2profile.C2Profile.from_text(text).as_dict()
+            return d
+        o = core.guarded(built, seconds=20)
+        ctx.evaluations += 1
+        if o[0] != "ok":
+            viol("builder", "literal_rejected_or_injected", {"b": L(b)[:64], "got": str(o)[:200]})
+        elif set(o[1]) != {"useragent", "http-get.uri"} or [ref_unescape(x) for x in o[1]["useragent"]] != [b] or [ref_unescape(x) for x in o[1]["http-get.uri"]] != [b]:
+            viol("builder", "value_changed_by_as_text", {"b": L(b)[:64], "got": str(o[1])[:300]})
     ctx.sample({"encode_event": {"b": ev[300]["b"], "lit": "".join(map(chr, ev[300]["lit"]))}})
     ctx.notes["rule"] = ("encode: all byte strings of length <= 1, length 2 (quick: syntax-relevant first/second bytes x all 256 + sample; thorough: all 65536), "
                          "length 3(4) over the syntax alphabet, random longer ones; decode: every concatenation of <= 2 (3) escape atoms; "
